@@ -261,6 +261,7 @@ class Interp:
         self.call_results = {}
         self.odict_wf_done = set()
         self.call_ghosts = {}
+        self.spec_pre = None  # preconditions of pure contract calls met while evaluating a pure body
         self.in_axiom = False
         self.defn_facts = []  # ground one-step unfoldings of recursive spec functions (definitional truths)
         self.qdepth = 0  # > 0 while evaluating under a quantifier binder
@@ -612,8 +613,10 @@ class Interp:
         saved_locals = self.st.locals
         # evaluate clauses over parameters at entry values (Python rebinding of params is local);
         # a lemma's conclusion may also speak about the ghost locals its body introduced
-        env = dict(self.st.locals) if fs.kind == "lemma" else {}
-        env.update(self.old_st.locals)
+        env = dict(self.st.locals) if (fs.kind == "lemma" or fs.options.get("stmt")) else {}
+        if not fs.options.get("stmt"):
+            env.update(self.old_st.locals)
+        # (a statement unit's postcondition speaks about the locals after the statement; old(x) gives entry values)
         if kind == "normal":
             if fs.ret is not None and fs.ret is not TNone:
                 val = self.coerce(val, fs.ret)
@@ -1650,7 +1653,8 @@ class Interp:
                 if key not in self.unfolded:
                     self.unfolded.add(key)
                     body = self.eval_pure_body(fs, env, unfolding=True)
-                    self.defn_facts.append(z3.simplify(fs.ret.eq(app, self.coerce(body, fs.ret))))
+                    b2 = self.coerce(body, fs.ret)
+                    self.defn_facts.append(z3.simplify(z3.And(*[x == y for x, y in zip(app.terms, b2.terms)])))
             return app
         # pure: inline the single return expression
         rets = [s for s in fs.ghost_body if isinstance(s, ast.Return)]
@@ -1746,7 +1750,7 @@ class Interp:
     def call_contract(self, fs: FnSpec, args, kwargs, node):
         """modular call: precondition obligations, havoc assigns, assume postconditions"""
         if self.spec and fs.kind != "lemma":
-            raise OutOfSubset(f"call of contract function {fs.name} inside a specification")
+            return self.call_pure_contract(fs, args, kwargs, node)
         env = self.bind_args(fs.params, args, kwargs, fs.name)
         if fs.kind == "lemma":
             env = {k: self.name_value(v, k) for k, v in env.items()}
@@ -1802,6 +1806,32 @@ class Interp:
             return res
         finally:
             self.st.locals, self.old_st, self.bound = saved_locals, saved_old, saved_bound
+
+    def call_pure_contract(self, fs, args, kwargs, node):
+        """a call evaluated inside a pure context (body of any()/all()/a comprehension, or a specification): allowed only for
+        contracts declared pure=True, without assigns, whose result is given functionally by `ensures(result == E)`.
+        The callee's preconditions are collected and become one quantified obligation of the enclosing construct."""
+        if not fs.options.get("pure") or fs.assigns:
+            raise OutOfSubset(f"call of {fs.name} in a pure context (contract is not declared pure=True)")
+        env = self.bind_args(fs.params, args, kwargs, fs.name)
+        defs = [e for e in fs.ensures if isinstance(e, ast.Compare) and len(e.ops) == 1 and isinstance(e.ops[0], ast.Eq)
+                and isinstance(e.left, ast.Name) and e.left.id == "result"]
+        if len(defs) != 1:
+            raise OutOfSubset(f"pure contract {fs.name} needs exactly one `ensures(result == E)`")
+        saved = (self.st.locals, self.bound, self.old_st)
+        self.st.locals, self.bound = env, dict(self.bound)
+        self.old_st = self.st
+        try:
+            pre = [self.ev_spec(r) for r in fs.requires]
+            # a strict raises clause is part of the precondition in a pure context (no exception may escape any()/all())
+            for en, when, strict in fs.raises:
+                pre.append(z3.Not(self.ev_spec(when)) if when is not None else z3.BoolVal(False))
+            if self.spec_pre is not None:
+                self.spec_pre.extend(pre)
+            r = self.ev(defs[0].comparators[0])
+        finally:
+            self.st.locals, self.bound, self.old_st = saved
+        return self.coerce(r, fs.ret) if fs.ret is not None and isinstance(r, V) else r
 
     def raise_from_call(self, fs, k, en, env, pre_st):
         self.st.locals = env
